@@ -148,6 +148,12 @@ func (c RawConfiguration) handleCorrectableCall(ctx context.Context, corr *Corre
 	for {
 		if (state.data.ServerStream && len(errs) == state.expectedReplies) ||
 			(!state.data.ServerStream && len(errs)+len(replies) == state.expectedReplies) {
+			if err := ctx.Err(); err != nil {
+				// the nodes were answered on behalf of the ended context
+				// (see enqueue and sendMsg); this is not an incomplete call
+				corr.set(resp, clevel, QuorumCallError{cause: err, errors: errs, replies: len(replies)}, true)
+				return
+			}
 			corr.set(resp, clevel, QuorumCallError{cause: Incomplete, errors: errs, replies: len(replies)}, true)
 			return
 		}
